@@ -85,12 +85,12 @@ Section Client.
   Fixpoint client_psegs (dirs : list (str * option sch)) (fs : list field) : option (list pseg) :=
     match dirs with
     | [] => match fs with [] => Some [] | _ => None end
-    | (d, None) :: r => option_map (cons (PLit d)) (client_psegs r fs)
+    | (d, None) :: r => option_map (cons (WLit d)) (client_psegs r fs)
     | (_, Some sc) :: r =>
       match fs with
       | FVal v :: fs' =>
         match format_string sc v, client_psegs r fs' with
-        | Some s, Some segs => Some (PVal s :: segs)
+        | Some s, Some segs => Some (WVal s :: segs)
         | _, _ => None
         end
       | _ => None
